@@ -331,8 +331,21 @@ def judge_generic(res, site, form, text, operands):
     res.outcomes['defs %s %s' % ('value' if not failed else 'error ' + out[1],
                                  'evaluated' if log else 'nothing evaluated')] += 1
     if not ok:
-        res.fail('order fn=' + site, {'kind': 'generic', 'site': site, 'form': form, 'text': text, 'operands': operands},
+        res.fail('order fn=' + site, {'kind': 'generic', 'site': site, 'form': form, 'text': text, 'operands': operands,
+                                      'symptom': symptom(operands, log)},
                  'text %s: observed ticks %r, outcome %r; admissible %r' % (text, log, out[:2], patterns))
+
+
+def symptom(operands, log):
+    eager = [i for i, lazy in operands if not lazy]
+    seen = [i for i in log if i in eager]
+    if len(set(seen)) < len(seen):
+        return 'eager-operand-evaluated-more-than-once'
+    if seen != sorted(seen):
+        return 'eager-operands-out-of-order'
+    if seen == eager and log[:len(eager)] != eager:
+        return 'lazy-operand-before-eager'
+    return 'eager-operand-not-evaluated'
 
 
 def job_defs(tier, k, K):
@@ -667,6 +680,28 @@ def jobs(tier, seed):
         out.append(('stream-%02d' % k, 'job_model', ('stream', tier, k, ns)))
     out.append(('binders', 'job_model', ('binders', tier, 0, 1)))
     return out
+
+
+def finish(total, tier):
+    """A defect of the resolution machinery shows at every definition: more than ten definitions failing
+    with one symptom are reported under one key (the smallest case is kept)."""
+    groups = {}
+    for key, f in total.failures.items():
+        if isinstance(f.case, dict) and f.case.get('kind') == 'generic':
+            groups.setdefault(f.case['symptom'], []).append(key)
+    for sym, keys in groups.items():
+        if len(keys) <= 10:
+            continue
+        best = min((total.failures[k] for k in keys), key=lambda f: (f.size, f.key))
+        count = sum(total.failure_counts.pop(k, 0) for k in keys)
+        for k in keys:
+            del total.failures[k]
+        key = 'order symptom=%s across definitions' % sym
+        best.key = key
+        total.failures[key] = best
+        total.failure_counts[key] = count
+        total.extra.setdefault('definitions_failing_with_one_symptom', {})[sym] = len(keys)
+    total.extra['sites_with_a_successful_probe'] = len(total.extra.get('sites_with_a_successful_probe', {}))
 
 
 def replay(case):
